@@ -249,6 +249,22 @@ Proof.
     + split; [discriminate|intros H; inversion H; tauto].
 Qed.
 
+(* ---- which identity the ownership tests use: the effective uid, at every site (GenPath *_owner_id) ---- *)
+Lemma dir_owner_effective id : pick_uid dir_owner_id id = i_euid id.
+Proof. reflexivity. Qed.
+Lemma key_owner_effective id : pick_uid key_owner_id id = i_euid id.
+Proof. reflexivity. Qed.
+Lemma seed_owner_effective id : pick_uid seed_owner_id id = i_euid id.
+Proof. reflexivity. Qed.
+Lemma log_owner_effective id : pick_uid log_owner_id id = i_euid id.
+Proof. reflexivity. Qed.
+Lemma lock_owner_effective id : pick_uid lock_owner_id id = i_euid id.
+Proof. reflexivity. Qed.
+
+Lemma path_secure_as_spec id tg flags chain :
+  path_secure_as id tg flags chain = Secure <-> Forall (dir_ok (i_euid id) tg flags) chain.
+Proof. unfold path_secure_as. rewrite dir_owner_effective. apply path_secure_spec. Qed.
+
 (* ---- key file ---- *)
 Definition key_ok (euid : N) (o : fobs) : Prop :=
   exists s, o_stat o = Some s /\ f_type s = TReg /\ o_symlink o = false /\ f_uid s = euid /\
@@ -275,11 +291,11 @@ Qed.
 Lemma dir_why_none v : dir_why v = None <-> v = Secure.
 Proof. destruct v; cbn; split; congruence. Qed.
 
-Theorem keyfile_spec euid tg o chain :
-  keyfile_check false euid tg o chain = None <->
-  key_ok euid o /\ Forall (dir_ok euid tg 0) chain.
+Theorem keyfile_spec id tg o chain :
+  keyfile_check false id tg o chain = None <->
+  key_ok (i_euid id) o /\ Forall (dir_ok (i_euid id) tg 0) chain.
 Proof.
-  unfold keyfile_check, key_ok. destruct (o_stat o) as [s|].
+  unfold keyfile_check, key_ok. rewrite key_owner_effective. set (euid := i_euid id). destruct (o_stat o) as [s|].
   2:{ split; [discriminate|]. intros [(s & H & _) _]. discriminate. }
   destruct (is_reg s) eqn:R; cbn [negb].
   2:{ split; [discriminate|]. intros [(s' & H & T & _) _]. inversion H; subst.
@@ -295,7 +311,7 @@ Proof.
   destruct (has (f_mode s) oth_rw) eqn:O.
   { split; [discriminate|]. intros [(s' & H & _ & _ & _ & X) _]. inversion H; subst.
     apply rw_mask in X. destruct X; congruence. }
-  rewrite dir_why_none, path_secure_spec.
+  rewrite dir_why_none, path_secure_as_spec. fold euid.
   rewrite (forall_dir_ok_flags euid tg key_flags 0 chain) by (vm_compute; reflexivity).
   split.
   - intros H. split; [|exact H]. exists s. repeat split; try assumption. apply rw_mask. tauto.
@@ -303,8 +319,8 @@ Proof.
 Qed.
 
 (* with --force only a missing or non-regular key stops the daemon *)
-Lemma keyfile_force euid tg o chain :
-  keyfile_check true euid tg o chain = None <-> exists s, o_stat o = Some s /\ f_type s = TReg.
+Lemma keyfile_force id tg o chain :
+  keyfile_check true id tg o chain = None <-> exists s, o_stat o = Some s /\ f_type s = TReg.
 Proof.
   unfold keyfile_check. destruct (o_stat o) as [s|].
   - destruct (is_reg s) eqn:R; cbn [negb].
@@ -314,10 +330,10 @@ Proof.
 Qed.
 
 (* ---- seed file ---- *)
-Lemma seed_valid_spec euid s :
-  seed_valid euid s = true <-> f_type s = TReg /\ f_uid s = euid /\ N.land (f_mode s) 54 = 0.
+Lemma seed_valid_spec id s :
+  seed_valid id s = true <-> f_type s = TReg /\ f_uid s = i_euid id /\ N.land (f_mode s) 54 = 0.
 Proof.
-  unfold seed_valid. rewrite !andb_true_iff, !negb_true_iff, is_reg_true, N.eqb_eq, <- rw_mask. tauto.
+  unfold seed_valid. rewrite seed_owner_effective, !andb_true_iff, !negb_true_iff, is_reg_true, N.eqb_eq, <- rw_mask. tauto.
 Qed.
 
 Definition seed_acceptable (euid : N) (o : fobs) : Prop :=
@@ -330,25 +346,25 @@ Definition seed_is_dir (o : fobs) : Prop :=
 Lemma is_dir_true s : is_dir s = true <-> f_type s = TDir.
 Proof. unfold is_dir. destruct (f_type s); split; congruence. Qed.
 
-Lemma seed_read_used euid o : snd (seed_read euid o) = true <-> seed_acceptable euid o.
+Lemma seed_read_used id o : snd (seed_read id o) = true <-> seed_acceptable (i_euid id) o.
 Proof.
   unfold seed_read, seed_acceptable. destruct (o_symlink o).
   - cbn. split; [discriminate|]. intros [X _]. discriminate.
   - destruct (o_stat o) as [s|].
-    + destruct (seed_valid euid s) eqn:V; cbn.
+    + destruct (seed_valid id s) eqn:V; cbn.
       * apply seed_valid_spec in V. split; [intros _|reflexivity]. split; [reflexivity|]. exists s. tauto.
       * split; [discriminate|]. intros (_ & s' & H & T). inversion H; subst.
         apply seed_valid_spec in T. congruence.
     + cbn. split; [discriminate|]. intros (_ & s' & H & _). discriminate.
 Qed.
 
-Lemma seed_read_bad euid o :
-  fst (seed_read euid o) = true <-> seed_present o /\ ~ seed_acceptable euid o.
+Lemma seed_read_bad id o :
+  fst (seed_read id o) = true <-> seed_present o /\ ~ seed_acceptable (i_euid id) o.
 Proof.
   unfold seed_read, seed_present, seed_acceptable. destruct (o_symlink o).
   - cbn. split; [intros _|reflexivity]. split; [left; reflexivity|]. intros [X _]. discriminate.
   - destruct (o_stat o) as [s|].
-    + destruct (seed_valid euid s) eqn:V; cbn.
+    + destruct (seed_valid id s) eqn:V; cbn.
       * apply seed_valid_spec in V. split; [discriminate|]. intros [_ X]. exfalso. apply X.
         split; [reflexivity|]. exists s. tauto.
       * split; [intros _|reflexivity]. split; [right; discriminate|].
@@ -359,36 +375,36 @@ Qed.
 Definition seed_unlinkable (o : fobs) : bool :=
   o_symlink o || match o_stat o with Some s => negb (is_dir s) | None => false end.
 
-Lemma seed_step_refused force euid tg o chain :
-  sr_refuse (seed_step force euid tg o chain) <> None ->
-  force = false /\ path_is_secure euid tg seed_flags chain <> Secure /\
-  sr_hang (seed_step force euid tg o chain) = false /\
-  sr_used (seed_step force euid tg o chain) = false /\
-  sr_removed (seed_step force euid tg o chain) = false.
+Lemma seed_step_refused force id tg o chain :
+  sr_refuse (seed_step force id tg o chain) <> None ->
+  force = false /\ path_secure_as id tg seed_flags chain <> Secure /\
+  sr_hang (seed_step force id tg o chain) = false /\
+  sr_used (seed_step force id tg o chain) = false /\
+  sr_removed (seed_step force id tg o chain) = false.
 Proof.
-  unfold seed_step. destruct (path_is_secure euid tg seed_flags chain) as [|i r], force;
-  destruct (seed_blocks o); destruct (seed_read euid o) as [bad used]; cbn; intros H; try congruence;
+  unfold seed_step. destruct (path_secure_as id tg seed_flags chain) as [|i r], force;
+  destruct (seed_blocks o); destruct (seed_read id o) as [bad used]; cbn; intros H; try congruence;
   repeat split; congruence.
 Qed.
 
-Lemma seed_step_hang force euid tg o chain :
-  sr_hang (seed_step force euid tg o chain) = true <->
-  sr_refuse (seed_step force euid tg o chain) = None /\ seed_blocks o = true.
+Lemma seed_step_hang force id tg o chain :
+  sr_hang (seed_step force id tg o chain) = true <->
+  sr_refuse (seed_step force id tg o chain) = None /\ seed_blocks o = true.
 Proof.
-  unfold seed_step. destruct (path_is_secure euid tg seed_flags chain) as [|i r], force;
-  destruct (seed_blocks o); destruct (seed_read euid o) as [bad used]; cbn; split; intros H;
+  unfold seed_step. destruct (path_secure_as id tg seed_flags chain) as [|i r], force;
+  destruct (seed_blocks o); destruct (seed_read id o) as [bad used]; cbn; split; intros H;
   try discriminate; try tauto; try (destruct H; discriminate).
 Qed.
 
-Lemma seed_step_run force euid tg o chain :
-  sr_refuse (seed_step force euid tg o chain) = None ->
-  sr_hang (seed_step force euid tg o chain) = false ->
-  (force = true \/ path_is_secure euid tg seed_flags chain = Secure) /\
-  sr_used (seed_step force euid tg o chain) = snd (seed_read euid o) /\
-  sr_removed (seed_step force euid tg o chain) = fst (seed_read euid o) && seed_unlinkable o.
+Lemma seed_step_run force id tg o chain :
+  sr_refuse (seed_step force id tg o chain) = None ->
+  sr_hang (seed_step force id tg o chain) = false ->
+  (force = true \/ path_secure_as id tg seed_flags chain = Secure) /\
+  sr_used (seed_step force id tg o chain) = snd (seed_read id o) /\
+  sr_removed (seed_step force id tg o chain) = fst (seed_read id o) && seed_unlinkable o.
 Proof.
-  unfold seed_step, seed_unlinkable. destruct (path_is_secure euid tg seed_flags chain) as [|i r], force;
-  destruct (seed_blocks o); destruct (seed_read euid o) as [bad used]; cbn; intros H H';
+  unfold seed_step, seed_unlinkable. destruct (path_secure_as id tg seed_flags chain) as [|i r], force;
+  destruct (seed_blocks o); destruct (seed_read id o) as [bad used]; cbn; intros H H';
   try discriminate; repeat split; tauto.
 Qed.
 
@@ -421,53 +437,53 @@ Qed.
 (* used only when acceptable; a present seed that is not acceptable is never used and is unlinked
    (unlink(2) cannot remove a directory: the one case where it stays, unused); the start blocks exactly
    when the seed is a FIFO and the source opens it without O_NONBLOCK *)
-Theorem seed_spec force euid tg o chain :
-  let r := seed_step force euid tg o chain in
-  (sr_used r = true -> seed_acceptable euid o) /\
-  (sr_refuse r = None -> sr_hang r = false -> seed_present o -> ~ seed_acceptable euid o ->
+Theorem seed_spec force id tg o chain :
+  let r := seed_step force id tg o chain in
+  (sr_used r = true -> seed_acceptable (i_euid id) o) /\
+  (sr_refuse r = None -> sr_hang r = false -> seed_present o -> ~ seed_acceptable (i_euid id) o ->
      sr_used r = false /\ (~ seed_is_dir o -> sr_removed r = true)) /\
-  (sr_refuse r = None -> seed_acceptable euid o ->
+  (sr_refuse r = None -> seed_acceptable (i_euid id) o ->
      sr_hang r = false /\ sr_used r = true /\ sr_removed r = false) /\
-  (force = false -> (sr_refuse r = None <-> Forall (dir_ok euid tg 0) chain)) /\
+  (force = false -> (sr_refuse r = None <-> Forall (dir_ok (i_euid id) tg 0) chain)) /\
   (sr_refuse r <> None -> sr_hang r = false /\ sr_used r = false /\ sr_removed r = false) /\
   (sr_hang r = true <-> sr_refuse r = None /\ seed_is_fifo o /\ seed_open_nonblock = false) /\
   (sr_hang r = true -> sr_used r = false /\ sr_removed r = false).
 Proof.
   cbv zeta.
-  assert (F : Forall (dir_ok euid tg 0) chain <-> path_is_secure euid tg seed_flags chain = Secure).
-  { rewrite path_secure_spec. apply forall_dir_ok_flags. vm_compute. reflexivity. }
-  assert (HU : sr_hang (seed_step force euid tg o chain) = true ->
-               sr_used (seed_step force euid tg o chain) = false /\
-               sr_removed (seed_step force euid tg o chain) = false).
-  { unfold seed_step. destruct (path_is_secure euid tg seed_flags chain) as [|i r], force;
-    destruct (seed_blocks o); destruct (seed_read euid o) as [bad used]; cbn; intros H;
+  assert (F : Forall (dir_ok (i_euid id) tg 0) chain <-> path_secure_as id tg seed_flags chain = Secure).
+  { rewrite path_secure_as_spec. apply forall_dir_ok_flags. vm_compute. reflexivity. }
+  assert (HU : sr_hang (seed_step force id tg o chain) = true ->
+               sr_used (seed_step force id tg o chain) = false /\
+               sr_removed (seed_step force id tg o chain) = false).
+  { unfold seed_step. destruct (path_secure_as id tg seed_flags chain) as [|i r], force;
+    destruct (seed_blocks o); destruct (seed_read id o) as [bad used]; cbn; intros H;
     try discriminate; tauto. }
   split; [|split; [|split; [|split; [|split; [|split]]]]].
-  - intros U. destruct (sr_refuse (seed_step force euid tg o chain)) eqn:R.
-    + assert (X : sr_refuse (seed_step force euid tg o chain) <> None) by congruence.
+  - intros U. destruct (sr_refuse (seed_step force id tg o chain)) eqn:R.
+    + assert (X : sr_refuse (seed_step force id tg o chain) <> None) by congruence.
       apply seed_step_refused in X. destruct X as (_ & _ & _ & X & _). congruence.
-    + destruct (sr_hang (seed_step force euid tg o chain)) eqn:Hg.
+    + destruct (sr_hang (seed_step force id tg o chain)) eqn:Hg.
       * destruct (HU eq_refl) as [X _]. congruence.
       * apply seed_step_run in R; [|exact Hg]. destruct R as (_ & R & _). rewrite R in U.
         apply seed_read_used. exact U.
   - intros R Hg P NA. apply seed_step_run in R; [|exact Hg]. destruct R as (_ & R1 & R2). split.
-    + rewrite R1. destruct (snd (seed_read euid o)) eqn:E; [|reflexivity].
+    + rewrite R1. destruct (snd (seed_read id o)) eqn:E; [|reflexivity].
       apply seed_read_used in E. tauto.
     + intros ND. rewrite R2, (seed_unlinkable_spec o P ND), andb_true_r.
       apply seed_read_bad. tauto.
   - intros R A.
-    assert (Hg : sr_hang (seed_step force euid tg o chain) = false).
-    { destruct (sr_hang (seed_step force euid tg o chain)) eqn:Hg; [|reflexivity].
+    assert (Hg : sr_hang (seed_step force id tg o chain) = false).
+    { destruct (sr_hang (seed_step force id tg o chain)) eqn:Hg; [|reflexivity].
       apply seed_step_hang in Hg. destruct Hg as [_ B]. apply seed_blocks_spec in B.
       destruct B as [[_ (s & E & T)] _]. destruct A as (_ & s' & E' & T' & _). congruence. }
     split; [exact Hg|].
     apply seed_step_run in R; [|exact Hg]. destruct R as (_ & R1 & R2). split.
     + rewrite R1. apply seed_read_used. exact A.
-    + rewrite R2. destruct (fst (seed_read euid o)) eqn:E; [|reflexivity].
+    + rewrite R2. destruct (fst (seed_read id o)) eqn:E; [|reflexivity].
       apply seed_read_bad in E. tauto.
   - intros NF. subst force. rewrite F. unfold seed_step.
-    destruct (path_is_secure euid tg seed_flags chain) as [|i r]; destruct (seed_blocks o);
-    destruct (seed_read euid o) as [bad used]; cbn; split; congruence.
+    destruct (path_secure_as id tg seed_flags chain) as [|i r]; destruct (seed_blocks o);
+    destruct (seed_read id o) as [bad used]; cbn; split; congruence.
   - intros R. apply seed_step_refused in R. tauto.
   - rewrite seed_step_hang, seed_blocks_spec. tauto.
   - exact HU.
@@ -480,16 +496,17 @@ Definition log_ok (euid : N) (o : fobs) : Prop :=
    exists s, o_stat o = Some s /\ f_type s = TReg /\ f_uid s = euid /\
              N.testbit (f_mode s) 4 = false /\ N.testbit (f_mode s) 1 = false).
 
-Theorem logfile_spec euid tg o chain :
-  logfile_check false euid tg o chain = None <->
-  log_ok euid o /\ Forall (fun d => owner_ok euid d /\ ow_ok d) chain.
+Theorem logfile_spec id tg o chain :
+  logfile_check false id tg o chain = None <->
+  log_ok (i_euid id) o /\ Forall (fun d => owner_ok (i_euid id) d /\ ow_ok d) chain.
 Proof.
+  set (euid := i_euid id).
   assert (F : Forall (fun d => owner_ok euid d /\ ow_ok d) chain <->
-              path_is_secure euid tg log_flags chain = Secure).
-  { rewrite path_secure_spec, !Forall_forall. split; intros H d Hd; specialize (H d Hd).
+              path_secure_as id tg log_flags chain = Secure).
+  { rewrite path_secure_as_spec, !Forall_forall. fold euid. split; intros H d Hd; specialize (H d Hd).
     - apply dir_ok_ignore; [vm_compute; reflexivity|exact H].
     - apply dir_ok_ignore in H; [exact H|vm_compute; reflexivity]. }
-  unfold logfile_check, log_ok. destruct (o_symlink o) eqn:L; cbn [andb negb].
+  unfold logfile_check, log_ok. rewrite log_owner_effective. fold euid. destruct (o_symlink o) eqn:L; cbn [andb negb].
   { split; [discriminate|]. intros [[X _] _]. discriminate. }
   destruct (o_stat o) as [s|] eqn:S.
   2:{ rewrite dir_why_none, <- F. split; [intros H; repeat split; tauto|tauto]. }
@@ -552,6 +569,222 @@ Proof.
   unfold modes_ok in Y. rewrite !andb_true_iff, !N.eqb_eq in Y. tauto.
 Qed.
 
+(* ---- created files, whatever is at the name beforehand ---- *)
+Definition entry_is_dir (e : fobs) : Prop :=
+  o_symlink e = false /\ exists s, o_stat e = Some s /\ f_type s = TDir.
+
+(* a file the daemon made itself: reached without a symlink, regular, owned by the effective uid and gid,
+   no permission bit outside bound *)
+Definition safe_new (id : ident) (bound : N) (e' : fobs) (s : fstat) : Prop :=
+  e' = e_file s /\ f_type s = TReg /\ f_uid s = i_euid id /\ f_gid s = i_egid id /\
+  within (f_mode s) bound = true.
+
+Lemma unlink_fails_spec e : unlink_fails e = true <-> entry_is_dir e.
+Proof.
+  unfold unlink_fails, entry_is_dir. destruct (o_symlink e); cbn.
+  - split; [discriminate|]. intros [X _]. discriminate.
+  - destruct (o_stat e) as [s|].
+    + rewrite is_dir_true. split.
+      * intros H. split; [reflexivity|]. exists s. tauto.
+      * intros [_ (s' & E & T)]. inversion E; subst. exact T.
+    + split; [discriminate|]. intros [_ (s & E & _)]. discriminate.
+Qed.
+
+Lemma fs_unlink_cases e :
+  (unlink_fails e = true /\ fs_unlink e = e) \/ (unlink_fails e = false /\ fs_unlink e = e_absent).
+Proof. unfold fs_unlink. destruct (unlink_fails e); [left|right]; split; reflexivity. Qed.
+
+Lemma open_dir_fails excl nofollow id m e :
+  unlink_fails e = true -> fs_open_creat excl nofollow id m e = OFail.
+Proof.
+  intros H. apply unlink_fails_spec in H. destruct H as [L (s & E & T)].
+  unfold fs_open_creat. rewrite L, E. destruct excl; [reflexivity|].
+  unfold open_existing. rewrite T. reflexivity.
+Qed.
+
+Lemma open_absent excl nofollow id m :
+  fs_open_creat excl nofollow id m e_absent = OOpened (e_file (fresh_file id m)) (fresh_file id m).
+Proof. reflexivity. Qed.
+
+(* unlink first: whatever was there, the result is a brand-new file — or nothing, when a directory is in the way *)
+Lemma create_at_unlinked h r id u e : h_unlink h = true ->
+  create_at h r id u e =
+  if unlink_fails e then OFail
+  else OOpened (e_file (fresh_file id (created r u))) (fresh_file id (created r u)).
+Proof.
+  intros H. unfold create_at. rewrite H.
+  destruct (fs_unlink_cases e) as [[F E]|[F E]]; rewrite E, F.
+  - rewrite open_dir_fails by exact F. reflexivity.
+  - rewrite open_absent. unfold created. destruct (r_chmod r); reflexivity.
+Qed.
+
+(* whatever open() returns a descriptor for is what stat() reports at the name afterwards *)
+Lemma open_existing_opened id s e e' s' :
+  o_stat e = Some s -> open_existing id s e = OOpened e' s' -> e' = e /\ s' = s.
+Proof.
+  unfold open_existing. intros E. destruct (f_type s); destruct (may_write id s); intros H;
+  try discriminate; inversion H; tauto.
+Qed.
+
+Lemma fs_open_creat_opened excl nofollow id m e e' s :
+  fs_open_creat excl nofollow id m e = OOpened e' s ->
+  o_stat e' = Some s /\
+  ((o_stat e = None /\ s = fresh_file id m /\ o_symlink e' = o_symlink e) \/ (e' = e /\ o_stat e = Some s)).
+Proof.
+  unfold fs_open_creat. destruct (o_symlink e) eqn:L.
+  - destruct (excl || nofollow); [discriminate|]. destruct (o_stat e) as [s0|] eqn:E.
+    + intros H. apply open_existing_opened in H; [|exact E]. destruct H; subst. tauto.
+    + intros H. inversion H; subst. cbn. tauto.
+  - destruct (o_stat e) as [s0|] eqn:E.
+    + destruct excl; [discriminate|]. intros H. apply open_existing_opened in H; [|exact E].
+      destruct H; subst. tauto.
+    + intros H. inversion H; subst. cbn. tauto.
+Qed.
+
+Lemma how_facts :
+  (forall fg, h_unlink (pid_how fg) = true) /\ (forall fg, h_unlink (seed_how fg) = true) /\
+  (forall fg, h_unlink (sock_how fg) = true) /\
+  (forall fg, lock_how fg = mkh false false false) /\ log_how = mkh false false false.
+Proof. repeat split; try (intros [|]; reflexivity). Qed.
+
+Lemma recipes_no_chmod :
+  (forall fg, r_chmod (lock_recipe fg) = None) /\ r_chmod log_recipe = None.
+Proof. split; [intros [|]; reflexivity|reflexivity]. Qed.
+
+(* pid file: whatever was at the name (file of any type, owner and mode, symlink, dangling symlink), the pid is
+   written to a brand-new regular file of the effective uid within 0644; only a directory in the way leaves
+   no pid file.  The write never blocks. *)
+Theorem pid_any_prior fg id u e : u < 512 ->
+  let r := pid_write fg id u e in
+  w_hang r = false /\
+  match w_file r with
+  | Some s => safe_new id 420 (w_entry r) s
+  | None => entry_is_dir e /\ w_entry r = e
+  end.
+Proof.
+  intros U. cbv zeta. unfold pid_write.
+  rewrite create_at_unlinked by apply how_facts.
+  destruct (unlink_fails e) eqn:F; cbn [w_hang w_file w_entry].
+  - split; [reflexivity|]. split; [apply unlink_fails_spec; exact F|].
+    destruct (fs_unlink_cases e) as [[_ E]|[X _]]; [exact E|congruence].
+  - split; [reflexivity|]. unfold safe_new, fresh_file; cbn [f_type f_uid f_gid f_mode].
+    repeat split. apply (modes_for_all_umasks fg u U).
+Qed.
+
+(* seed file written at exit: the same, within 0600 *)
+Theorem seed_write_any_prior fg id u e : u < 512 ->
+  let r := seed_write fg id u e in
+  w_hang r = false /\
+  match w_file r with
+  | Some s => safe_new id 384 (w_entry r) s
+  | None => entry_is_dir e /\ w_entry r = e
+  end.
+Proof.
+  intros U. cbv zeta. unfold seed_write.
+  rewrite create_at_unlinked by apply how_facts.
+  destruct (unlink_fails e) eqn:F; cbn [w_hang w_file w_entry].
+  - split; [reflexivity|]. split; [apply unlink_fails_spec; exact F|].
+    replace (h_unlink (seed_how fg)) with true by (symmetry; apply how_facts).
+    destruct (fs_unlink_cases e) as [[_ E]|[X _]]; [exact E|congruence].
+  - split; [reflexivity|]. unfold safe_new, fresh_file; cbn [f_type f_uid f_gid f_mode].
+    repeat split. apply (modes_for_all_umasks fg u U).
+Qed.
+
+(* socket: a brand-new socket of the effective uid with mode 0777, or the daemon dies (directory in the way) *)
+Theorem sock_any_prior fg id u e : u < 512 ->
+  match sock_bind fg id u e with
+  | Some e' => e' = e_file (mkf TSock (i_euid id) (i_egid id) 511)
+  | None => entry_is_dir e
+  end.
+Proof.
+  intros U. unfold sock_bind.
+  replace (h_unlink (sock_how fg)) with true by (symmetry; apply how_facts). cbn [andb].
+  destruct (fs_unlink_cases e) as [[F E]|[F E]]; rewrite F.
+  - apply unlink_fails_spec. exact F.
+  - rewrite E. cbn. destruct (modes_for_all_umasks fg u U) as [M _]. rewrite M. reflexivity.
+Qed.
+
+(* lock file: if the daemon carries on with a lock, the locked file — what stat() reports at the name — is a
+   regular file of mode exactly 0200 owned by the effective uid; without a lock only under --force; with
+   --force the lock file is brand-new *)
+Theorem lock_any_prior fg force id u e :
+  match lock_step fg force id u e with
+  | LLocked e' s => o_stat e' = Some s /\ f_type s = TReg /\ f_mode s = 128 /\ f_uid s = i_euid id /\
+                    (force = true -> e' = e_file s /\ f_gid s = i_egid id)
+  | LNoLock _ => force = true
+  | LRefuse _ | LHang => True
+  end.
+Proof.
+  unfold lock_step. destruct how_facts as (_ & _ & _ & HL & _). rewrite HL. cbn [h_unlink h_excl h_nofollow].
+  rewrite orb_false_r. unfold create_at. cbn [h_unlink h_excl h_nofollow].
+  destruct recipes_no_chmod as [NC _]. rewrite NC.
+  set (m := created_mode _ _).
+  destruct (fs_open_creat false false id m (if force then fs_unlink e else e)) as [e' s| |] eqn:O.
+  - rewrite lock_owner_effective.
+    destruct (is_reg s) eqn:R; cbn [andb]; [|exact I].
+    destruct (N.eqb_spec (f_mode s) s_iwusr) as [M|M]; cbn [andb]; [|exact I].
+    destruct (N.eqb_spec (f_uid s) (i_euid id)) as [W|W]; [|exact I].
+    apply fs_open_creat_opened in O. destruct O as [S O].
+    split; [exact S|]. split; [apply is_reg_true; exact R|]. split; [exact M|]. split; [exact W|].
+    intros ->. destruct (fs_unlink_cases e) as [[F E]|[F E]]; rewrite E in O.
+    + exfalso. apply unlink_fails_spec in F. destruct F as [_ (s0 & E0 & T0)].
+      destruct O as [(X & _)|(_ & X)]; [congruence|].
+      assert (s0 = s) by congruence. subst. apply is_reg_true in R. congruence.
+    + destruct O as [(_ & -> & L)|(_ & X)]; [|discriminate].
+      split; [|reflexivity]. destruct e' as [l st]. cbn in L, S. subst. reflexivity.
+  - destruct force; [reflexivity|exact I].
+  - exact I.
+Qed.
+
+(* on a clean slate the lock is created with mode 0200 by the effective uid *)
+Lemma lock_fresh fg force id u : u < 512 ->
+  lock_step fg force id u e_absent = LLocked (e_file (fresh_file id 128)) (fresh_file id 128).
+Proof.
+  intros U. unfold lock_step. destruct how_facts as (_ & _ & _ & HL & _). rewrite HL.
+  cbn [h_unlink h_excl h_nofollow]. rewrite orb_false_r.
+  replace (if force then fs_unlink e_absent else e_absent) with e_absent by (destruct force; reflexivity).
+  unfold create_at. cbn [h_unlink h_excl h_nofollow]. rewrite open_absent.
+  destruct recipes_no_chmod as [NC _]. rewrite NC.
+  destruct (modes_for_all_umasks fg u U) as (_ & M & _). unfold created in M. rewrite NC in M. rewrite M.
+  rewrite lock_owner_effective. cbn. rewrite N.eqb_refl. reflexivity.
+Qed.
+
+(* log file (daemon mode, no --force): what is opened is a regular file of the effective uid reached without a
+   symlink and not group- or world-writable; when nothing was there it is new and within 0640 *)
+Theorem log_any_prior id tg u o chain : u < 512 ->
+  logfile_check false id tg o chain = None ->
+  match log_open id u o with
+  | OOpened e' s => o_symlink e' = false /\ o_stat e' = Some s /\ f_type s = TReg /\ f_uid s = i_euid id /\
+                    N.testbit (f_mode s) 4 = false /\ N.testbit (f_mode s) 1 = false /\
+                    (o_stat o = None -> f_gid s = i_egid id /\ within (f_mode s) 416 = true)
+  | OFail => exists s, o_stat o = Some s /\ may_write id s = false
+  | OBlock => False
+  end.
+Proof.
+  intros U H. apply logfile_spec in H. destruct H as [[L K] _].
+  unfold log_open, create_at. destruct how_facts as (_ & _ & _ & _ & HL). rewrite HL.
+  cbn [h_unlink h_excl h_nofollow]. destruct recipes_no_chmod as [_ NC]. rewrite NC.
+  destruct (modes_for_all_umasks false u U) as (_ & _ & _ & M & _).
+  unfold created in M. rewrite NC in M.
+  set (m := created_mode _ _) in *.
+  destruct o as [l st]. cbn in L, K. subst l. unfold fs_open_creat. cbn [o_symlink o_stat].
+  destruct K as [->|(s & -> & T & W & G & O)].
+  - cbn [e_file o_symlink o_stat fresh_file f_type f_uid f_gid f_mode].
+    split; [reflexivity|]. split; [reflexivity|]. split; [reflexivity|]. split; [reflexivity|].
+    split.
+    { pose proof (proj1 (within_spec m 416) M 4) as X. destruct (N.testbit m 4); [|reflexivity].
+      specialize (X eq_refl). discriminate. }
+    split.
+    { pose proof (proj1 (within_spec m 416) M 1) as X. destruct (N.testbit m 1); [|reflexivity].
+      specialize (X eq_refl). discriminate. }
+    intros _. split; [reflexivity|exact M].
+  - unfold open_existing. rewrite T. destruct (may_write id s) eqn:MW.
+    + cbn [o_symlink o_stat].
+      split; [reflexivity|]. split; [reflexivity|]. split; [exact T|]. split; [exact W|].
+      split; [exact G|]. split; [exact O|]. discriminate.
+    + exists s. split; [reflexivity|exact MW].
+Qed.
+
 (* ---- the whole start-up ---- *)
 Lemma first_some_none {A} (l : list (option A)) : first_some l = None <-> Forall (fun x => x = None) l.
 Proof.
@@ -564,17 +797,21 @@ Qed.
 Lemma tag_none s w : tag s w = None <-> w = None.
 Proof. destruct w; cbn; split; congruence. Qed.
 
+Definition lock_ok (id : ident) (l : lres) : Prop :=
+  exists e' s, l = LLocked e' s /\ o_stat e' = Some s /\ f_type s = TReg /\ f_mode s = 128 /\ f_uid s = i_euid id.
+
 Theorem startup_refuses (c : config) : c_force c = false -> startup c = None ->
-  key_ok (c_euid c) (c_key c) /\
-  Forall (dir_ok (c_euid c) (c_tg c) 0) (c_keydir c) /\
-  Forall (dir_ok (c_euid c) (c_tg c) 0) (c_seeddir c) /\
-  Forall (dir_ok (c_euid c) (c_tg c) 0) (c_sockdir c) /\
-  Forall (dir_ok (c_euid c) (c_tg c) 0) (c_piddir c) /\
-  (c_fg c = false -> log_ok (c_euid c) (c_log c) /\
-                     Forall (fun d => owner_ok (c_euid c) d /\ ow_ok d) (c_logdir c)) /\
-  m_lock (created_modes c) = 128.
+  let euid := i_euid (c_id c) in
+  key_ok euid (c_key c) /\
+  Forall (dir_ok euid (c_tg c) 0) (c_keydir c) /\
+  Forall (dir_ok euid (c_tg c) 0) (c_seeddir c) /\
+  Forall (dir_ok euid (c_tg c) 0) (c_sockdir c) /\
+  Forall (dir_ok euid (c_tg c) 0) (c_piddir c) /\
+  (c_fg c = false -> log_ok euid (c_log c) /\
+                     Forall (fun d => owner_ok euid d /\ ow_ok d) (c_logdir c)) /\
+  lock_ok (c_id c) (lock_of c).
 Proof.
-  intros NF H. unfold startup in H. apply first_some_none in H.
+  intros NF H. cbv zeta. unfold startup in H. apply first_some_none in H.
   repeat match goal with H : Forall _ (_ :: _) |- _ => inversion H; clear H; subst end.
   rewrite NF in *.
   repeat match goal with H : tag _ _ = None |- _ => apply tag_none in H end.
@@ -586,70 +823,135 @@ Proof.
       apply (proj1 (proj2 (proj2 (proj2 (seed_spec false _ _ _ _)))) eq_refl) in H; exact H end. }
   split.
   { match goal with H : sock_check _ _ _ _ = None |- _ => unfold sock_check in H;
-      destruct (dir_why (path_is_secure (c_euid c) (c_tg c) sock_flags (c_sockdir c))) eqn:E; [discriminate|];
-      apply dir_why_none, path_secure_spec in E;
+      destruct (dir_why (path_secure_as (c_id c) (c_tg c) sock_flags (c_sockdir c))) eqn:E; [discriminate|];
+      apply dir_why_none, path_secure_as_spec in E;
       apply (forall_dir_ok_flags _ _ sock_flags 0); [vm_compute; reflexivity|exact E] end. }
   split.
   { match goal with H : pid_check _ _ _ _ = None |- _ => unfold pid_check in H;
-      apply dir_why_none, path_secure_spec in H;
+      apply dir_why_none, path_secure_as_spec in H;
       apply (forall_dir_ok_flags _ _ pid_flags 0); [vm_compute; reflexivity|exact H] end. }
   split.
-  { intros FG. match goal with H : (if c_fg c then None else _) = None |- _ =>
+  { intros FG. match goal with H : (if c_fg c then None else tag SLog (logfile_check _ _ _ _ _)) = None |- _ =>
       rewrite FG in H; apply tag_none in H; apply logfile_spec in H; exact H end. }
-  match goal with H : lock_check _ _ _ _ _ = None |- _ => unfold lock_check in H end.
-  unfold created_modes, m_lock, lock_mode. rewrite NF.
-  match goal with H : match ?e with _ => _ end = None |- _ => destruct e as [s|] end.
-  - match goal with H : (if ?b then _ else _) = None |- _ => destruct b eqn:B; [|discriminate] end.
-    rewrite !andb_true_iff, !N.eqb_eq in B. destruct B as [[_ M] _]. exact M.
-  - match goal with H : (if ?b then _ else _) = None |- _ => destruct b eqn:B; [|discriminate] end.
-    apply N.eqb_eq in B. exact B.
+  match goal with H : lock_why _ = None |- _ => rename H into HL end.
+  unfold lock_of in *. rewrite NF in *.
+  pose proof (lock_any_prior (c_fg c) false (c_id c) (c_umask c) (c_lock c)) as P.
+  destruct (lock_step (c_fg c) false (c_id c) (c_umask c) (c_lock c)) as [e' s|e'|w|]; try discriminate.
+  - exists e', s. tauto.
 Qed.
 
-(* a successful start (forced or not) leaves files with these modes *)
-Theorem started_modes (c : config) : c_umask c < 512 -> startup c = None ->
-  let m := created_modes c in
-  m_sock m = 511 /\ m_lock m = 128 /\ within (m_pid m) 420 = true /\ within (m_seed m) 384 = true /\
-  (c_fg c = false -> o_stat (c_log c) = None -> exists x, m_log m = Some x /\ within x 416 = true).
+(* a successful start (forced or not), whatever was at the five names beforehand *)
+Theorem started_files (c : config) : c_umask c < 512 -> startup c = None ->
+  let id := c_id c in let a := after_start c in
+  a_sock a = e_file (mkf TSock (i_euid id) (i_egid id) 511) /\
+  match lock_of c with
+  | LLocked e' s => a_lock a = e' /\ o_stat e' = Some s /\ f_type s = TReg /\ f_mode s = 128 /\ f_uid s = i_euid id
+  | LNoLock _ => c_force c = true
+  | _ => False
+  end /\
+  match w_file (pid_of c) with
+  | Some s => safe_new id 420 (a_pid a) s
+  | None => entry_is_dir (c_pid c) /\ a_pid a = c_pid c
+  end /\
+  match w_file (seed_written c) with
+  | Some s => safe_new id 384 (seed_after c) s
+  | None => sr_keep (seed_of c) = true -> entry_is_dir (seed_at_exit c) /\ seed_after c = seed_at_exit c
+  end /\
+  (c_fg c = false -> c_force c = false ->
+   exists e' s, a_log a = Some e' /\ o_symlink e' = false /\ o_stat e' = Some s /\ f_type s = TReg /\
+                f_uid s = i_euid id /\ N.testbit (f_mode s) 4 = false /\ N.testbit (f_mode s) 1 = false /\
+                (o_stat (c_log c) = None -> within (f_mode s) 416 = true)).
 Proof.
-  intros U H. cbv zeta. unfold created_modes; cbn [m_sock m_lock m_pid m_seed m_log].
-  pose proof (modes_for_all_umasks (c_fg c) (c_umask c) U) as (M1 & M2 & M3 & M4 & M5).
-  repeat split; try assumption.
-  - unfold startup in H. apply first_some_none in H.
-    repeat match goal with H : Forall _ (_ :: _) |- _ => inversion H; clear H; subst end.
-    match goal with H : tag SLock _ = None |- _ => apply tag_none in H; unfold lock_check in H end.
-    unfold lock_mode.
-    match goal with H : match ?e with _ => _ end = None |- _ => destruct e as [s|] end.
-    + match goal with H : (if ?b then _ else _) = None |- _ => destruct b eqn:B; [|discriminate] end.
-      rewrite !andb_true_iff, !N.eqb_eq in B. destruct B as [[_ M] _]. exact M.
-    + exact M2.
-  - intros FG NL. rewrite FG, NL. eexists. split; [reflexivity|exact M4].
+  intros U H. cbv zeta. unfold startup in H. apply first_some_none in H.
+  repeat match goal with H : Forall _ (_ :: _) |- _ => inversion H; clear H; subst end.
+  repeat match goal with H : tag _ _ = None |- _ => apply tag_none in H end.
+  unfold after_start; cbn [a_sock a_lock a_pid a_log].
+  split.
+  { pose proof (sock_any_prior (c_fg c) (c_id c) (c_umask c) (c_sock c) U) as P. unfold bind_of in *.
+    destruct (sock_bind (c_fg c) (c_id c) (c_umask c) (c_sock c)); [exact P|discriminate]. }
+  split.
+  { pose proof (lock_any_prior (c_fg c) (c_force c) (c_id c) (c_umask c) (c_lock c)) as P. unfold lock_of in *.
+    destruct (lock_step (c_fg c) (c_force c) (c_id c) (c_umask c) (c_lock c)); try discriminate.
+    - cbn [lock_entry]. tauto.
+    - exact P. }
+  split.
+  { apply (pid_any_prior (c_fg c) (c_id c) (c_umask c) (c_pid c) U). }
+  split.
+  { unfold seed_after, seed_written. destruct (sr_keep (seed_of c)).
+    - pose proof (seed_write_any_prior (c_fg c) (c_id c) (c_umask c) (seed_at_exit c) U) as P. cbv zeta in P.
+      destruct P as [_ P].
+      destruct (w_file (seed_write (c_fg c) (c_id c) (c_umask c) (seed_at_exit c))); [exact P|intros _; exact P].
+    - cbn. discriminate. }
+  intros FG NF.
+  match goal with H : (if c_fg c then None else tag SLog (logfile_check _ _ _ _ _)) = None |- _ =>
+    rewrite FG in H; apply tag_none in H; rewrite NF in H; rename H into HC end.
+  match goal with H : (if c_fg c then None else tag SLog (open_why _)) = None |- _ =>
+    rewrite FG in H; apply tag_none in H; rename H into HO end.
+  rewrite FG. unfold log_of in *.
+  pose proof (log_any_prior _ _ (c_umask c) _ _ U HC) as P.
+  destruct (log_open (c_id c) (c_umask c) (c_log c)) as [e' s| |]; try discriminate.
+  exists e', s. destruct P as (P1 & P2 & P3 & P4 & P5 & P6 & P7). repeat split; try assumption.
+  intros N. apply P7. exact N.
 Qed.
+
+(* only the effective uid (and, for the group of new files, the effective gid) of the process matters:
+   real and saved ids never do *)
+Definition set_id (c : config) (id : ident) : config :=
+  mkc (c_fg c) (c_force c) id (c_tg c) (c_umask c) (c_key c) (c_keydir c) (c_seed c) (c_seeddir c)
+      (c_log c) (c_logdir c) (c_sock c) (c_sockdir c) (c_lock c) (c_pid c) (c_piddir c).
+
+Theorem identity_only_effective (c : config) (id : ident) :
+  i_euid id = i_euid (c_id c) -> i_egid id = i_egid (c_id c) ->
+  startup (set_id c id) = startup c /\ after_start (set_id c id) = after_start c /\
+  seed_of (set_id c id) = seed_of c /\ seed_after (set_id c id) = seed_after c.
+Proof.
+  destruct c as [fg force [r e s rg eg sg] tg u k kd sd sdd l ld so sod lo p pd].
+  destruct id as [r' e' s' rg' eg' sg']. cbn [c_id i_euid i_egid]. intros -> ->.
+  repeat split; reflexivity.
+Qed.
+
+Theorem path_secure_only_effective (id id' : ident) tg flags chain :
+  i_euid id = i_euid id' -> path_secure_as id tg flags chain = path_secure_as id' tg flags chain.
+Proof. intros H. unfold path_secure_as. rewrite !dir_owner_effective, H. reflexivity. Qed.
 
 (* observation: an existing log file keeps its mode; group/other read bits are not examined *)
 Definition clean_dir : dstat := mkd 0 0 493.
+Definition root_id : ident := mkid 0 0 0 0 0 0.
 Definition log_0644_config : config :=
-  mkc false false 0 no_trusted 18
+  mkc false false root_id no_trusted 18
       (mko false (Some (mkf TReg 0 0 384))) [clean_dir]
-      (mko false None) [clean_dir]
+      e_absent [clean_dir]
       (mko false (Some (mkf TReg 0 0 420))) [clean_dir]
-      [clean_dir] None [clean_dir].
+      e_absent [clean_dir] e_absent e_absent [clean_dir].
 
 Lemma existing_log_keeps_mode :
-  startup log_0644_config = None /\ m_log (created_modes log_0644_config) = Some 420 /\
+  startup log_0644_config = None /\
+  a_log (after_start log_0644_config) = Some (e_file (mkf TReg 0 0 420)) /\
   within 420 416 = false.
 Proof. vm_compute. repeat split. Qed.
 
 (* observation: a FIFO in the seed's place (in a secure seed directory) blocks the start for ever while the
    source opens the seed without O_NONBLOCK; with O_NONBLOCK it is vetted like any other non-regular file *)
 Definition fifo_seed_config : config :=
-  mkc true false 0 no_trusted 18
+  mkc true false root_id no_trusted 18
       (mko false (Some (mkf TReg 0 0 384))) [clean_dir]
       (mko false (Some (mkf TFifo 0 0 384))) [clean_dir]
-      (mko false None) [clean_dir]
-      [clean_dir] None [clean_dir].
+      e_absent [clean_dir]
+      e_absent [clean_dir] e_absent e_absent [clean_dir].
 
 Lemma seed_fifo_outcome :
   startup fifo_seed_config = (if seed_open_nonblock then None else Some (SSeed, WHang)) /\
   (seed_open_nonblock = true -> sr_used (seed_of fifo_seed_config) = false /\
                                 sr_removed (seed_of fifo_seed_config) = true).
 Proof. vm_compute. split; [reflexivity|]. intros H; try discriminate H; split; reflexivity. Qed.
+
+(* observation: a FIFO in the lock file's place blocks the start in open(O_WRONLY) until a signal arrives *)
+Definition fifo_lock_config : config :=
+  mkc true false root_id no_trusted 18
+      (mko false (Some (mkf TReg 0 0 384))) [clean_dir]
+      e_absent [clean_dir]
+      e_absent [clean_dir]
+      e_absent [clean_dir] (mko false (Some (mkf TFifo 0 0 128))) e_absent [clean_dir].
+
+Lemma lock_fifo_outcome : startup fifo_lock_config = Some (SLock, WHang).
+Proof. vm_compute. reflexivity. Qed.
